@@ -26,6 +26,21 @@ package channels
 //@     isFinal(s.Status) ==> !applied(s, E) && !entryRuns(s, E) && recEq(step(s, E), s)
 //@ lemma [identity-frozen] {C02,C10,C19}: foreach E in (*) :: forall s State :: sameIdentity(s, step(s, E))
 
+// C11 ------------------------------------------------------------------------------------------
+//@ lemma [own-flag-only] {C11}: forall s State ::
+//@     step(s, PauseInitiator).ResponderPaused == s.ResponderPaused && step(s, ResumeInitiator).ResponderPaused == s.ResponderPaused &&
+//@     step(s, PauseResponder).InitiatorPaused == s.InitiatorPaused && step(s, ResumeResponder).InitiatorPaused == s.InitiatorPaused
+//@     -- pausing or resuming one party never changes the other party's flag
+//@ lemma [pause-resume-set-the-flag] {C11}: forall s State ::
+//@     (applied(s, PauseInitiator) ==> step(s, PauseInitiator).InitiatorPaused) && (applied(s, ResumeInitiator) ==> !step(s, ResumeInitiator).InitiatorPaused) &&
+//@     (applied(s, PauseResponder) ==> step(s, PauseResponder).ResponderPaused) && (applied(s, ResumeResponder) ==> !step(s, ResumeResponder).ResponderPaused)
+//@ lemma [ignored-pause-keeps-state] {C11}: foreach E in (PauseInitiator, PauseResponder, ResumeInitiator, ResumeResponder) :: forall s State ::
+//@     !applied(s, E) ==> step(s, E) == s -- a pause / resume request in a status where it is meaningless leaves the record as it was
+//@ lemma [only-pause-events-touch-the-initiator-flag] {C11}: foreach E in (*) except (PauseInitiator, ResumeInitiator) :: forall s State ::
+//@     step(s, E).InitiatorPaused == s.InitiatorPaused
+//@ lemma [only-pause-events-touch-the-responder-flag] {C11}: foreach E in (*) except (PauseResponder, ResumeResponder, DataLimitExceeded) :: forall s State ::
+//@     step(s, E).ResponderPaused == s.ResponderPaused
+
 // C03 ------------------------------------------------------------------------------------------
 //@ lemma [bookkeeping-keeps-status] {C03}: foreach E in (DataReceived, DataReceivedProgress, DataSent, DataSentProgress,
 //@     DataQueued, DataQueuedProgress, SetDataLimit, SetRequiresFinalization, Disconnected, SendDataError, ReceiveDataError,
@@ -194,13 +209,20 @@ package channels
 
 //@ func (*channels.Channels).DataSent {C07,C08}
 //@   acquires {C20} channels.blockIndexCache.lk, channels.progressCache.lk
-//@   ensures [wiring] seq(Channels.fireProgressEvent) && all(Channels.fireProgressEvent, $1 == chid && $2 == datatransfer.DataSent && $3 == datatransfer.DataSentProgress && $4 == delta && $5 == index && $6 == unique && $8 == nil)
+//@   ensures [wiring] seq(Channels.fireProgressEvent) && all(Channels.fireProgressEvent, $1 == chid && $2 == datatransfer.DataSent && $3 == datatransfer.DataSentProgress && $4 == delta && $5 == index && $6 == unique &&
+//@       ismethod($7, c, getSentIndex) && $8 == nil) && result == ret(Channels.fireProgressEvent, 0)
 //@   modifies c.blockIndexCache.values, c.progressCache.values
 //@ func (*channels.Channels).DataQueued {C07,C08}
 //@   acquires {C20} channels.blockIndexCache.lk, channels.progressCache.lk
+//@   ensures [wiring] seq(Channels.fireProgressEvent) && all(Channels.fireProgressEvent, $1 == chid && $2 == datatransfer.DataQueued && $3 == datatransfer.DataQueuedProgress && $4 == delta && $5 == index && $6 == unique &&
+//@       ismethod($7, c, getQueuedIndex) && ismethod($8, c, getQueuedProgress)) && result == ret(Channels.fireProgressEvent, 0)
+//@       -- the sender's limit is measured against what it queued: index and progress readers of the same direction
 //@   modifies c.blockIndexCache.values, c.progressCache.values
 //@ func (*channels.Channels).DataReceived {C07,C08}
 //@   acquires {C20} channels.blockIndexCache.lk, channels.progressCache.lk
+//@   ensures [wiring] seq(Channels.fireProgressEvent) && all(Channels.fireProgressEvent, $1 == chid && $2 == datatransfer.DataReceived && $3 == datatransfer.DataReceivedProgress && $4 == delta && $5 == index && $6 == unique &&
+//@       ismethod($7, c, getReceivedIndex) && ismethod($8, c, getReceivedProgress)) && result == ret(Channels.fireProgressEvent, 0)
+//@       -- the receiver's limit is measured against what it received
 //@   modifies c.blockIndexCache.values, c.progressCache.values
 
 // ---------------------------------------------------------------------------------------------
